@@ -1270,10 +1270,16 @@ def structured_merge_closure(a):
         elif not (mg and r is not None and r[0] == "enum" and r[1] == "Result"):
             probs.append("a document is dropped")
         bad.append(pc_term(p.pc) if probs else "false")
-    a.discharge("structured/merge-closure/wiring", ex, bad,
-                "--structured, one document: merged (if parameters were given) with a copy of the evaluator's own parameters and stored "
-                "under its own name; without parameters the document itself is stored; a document is dropped only when its merge fails",
-                witness=False)
+    c = a.discharge("structured/merge-closure/wiring", ex, bad,
+                    "--structured, one document: merged (if parameters were given) with a copy of the evaluator's own parameters and stored "
+                    "under its own name; without parameters the document itself is stored; a document is dropped only when its merge fails",
+                    witness=False)
+    if c:
+        c["replay"] = replay_batch(a)
+        if not c["replay"].get("reproduced"):
+            c["replay"] = replay_param_conflict(a)
+        c["reproduced"] = c["replay"].get("reproduced", False)
+        a.candidates.append(c)
 
 
 def merge_unwrap(a):
